@@ -28,6 +28,7 @@ CODES = {
     13: "the canary label was added by a non-canary role, to a foreign pod or off the canary nodes",
     14: "the canary label was removed by a non-active role or from a foreign pod",
     16: "a canary sync left one of its pods on a canary node without the canary label",
+    17: "an active replica set inside its label clean-up window left the canary label on one of its own pods",
     18: "the ExtendedDaemonSet reconcile added canary nodes beyond the resolved replicas",
     20: "harness panic",
 }
